@@ -177,6 +177,15 @@ METADATA = {
     "js_b_dep_a": ({"metadata_type": "add_job_script", "name": "blk_b", "script": ["# script b"], "depends_on": ["blk_a"]}, None),
     "js_a_conflict": ({"metadata_type": "add_job_script", "name": "blk_a", "script": ["# another a"], "depends_on": []}, None),
     "js_missing_dep": ({"metadata_type": "add_job_script", "name": "blk_c", "script": ["# script c"], "depends_on": ["blk_nowhere"]}, None),
+    # job scripts without the optional depends_on key; the same block given twice with different dependencies (legal: the
+    # dependencies are combined)
+    "js_a_nodep": ({"metadata_type": "add_job_script", "name": "blk_a", "script": ["# script a line 1", "# script a line 2"]}, None),
+    "js_a_dep_x": ({"metadata_type": "add_job_script", "name": "blk_a", "script": ["# script a line 1", "# script a line 2"],
+                    "depends_on": ["blk_x"]}, None),
+    "js_x": ({"metadata_type": "add_job_script", "name": "blk_x", "script": ["# script x"]}, None),
+    "js_y_nodep": ({"metadata_type": "add_job_script", "name": "blk_y", "script": ["# script y, with 'quotes' and \"more\""]}, None),
+    "js_y_dep_a": ({"metadata_type": "add_job_script", "name": "blk_y", "script": ["# script y, with 'quotes' and \"more\""],
+                    "depends_on": ["blk_a"]}, None),
     # injected code
     "inj_1": ({"metadata_type": "inject_code", "name": "inj_one", "body_includes": ["inj/one.h"], "header_includes": ["inj/one_h.h"],
                "private_members": ["int m_inj_one;"], "instance_initialization": ["m_inj_one(1)"], "ctor_lines": ["m_inj_one = 2;"],
@@ -244,4 +253,16 @@ VARIANTS = {
     "jet_cvals": ["jet_cvals_coll"],
     "patmu_besttrack_recotrack": ["patmu_globaltrack_int"],
     "recomu_innertrack_trackref": ["recomu_globaltrack_int"],
+}
+
+
+# metadata that usually travels together: (companion, probability) - e.g. a block and the block it depends on, the same block
+# a second time with other dependencies, the same inject block twice
+COMPANIONS = {
+    "js_a_dep_x": [("js_x", 0.85), ("js_a_nodep", 0.6), ("js_a", 0.2)],
+    "js_a_nodep": [("js_a_dep_x", 0.3), ("js_x", 0.3)],
+    "js_y_dep_a": [("js_a_nodep", 0.6), ("js_a", 0.3), ("js_y_nodep", 0.5)],
+    "js_b_dep_a": [("js_a", 0.5), ("js_a_nodep", 0.4)],
+    "inj_1": [("inj_1", 0.15)],
+    "fn_scale": [("fn_scale", 0.1)],
 }
